@@ -5,3 +5,6 @@ pub use error::*;
 mod io;
 #[cfg(feature = "io")]
 pub use io::*;
+
+#[cfg(feature = "verif")]
+pub mod verif;
